@@ -1152,15 +1152,16 @@ class SessionTransaction(_StateChange, TransactionalContext):
         """
         assert self._is_transaction_boundary
 
-        if not self.nested and self.session.expire_on_commit:
-            for s in self.session.identity_map.all_states():
-                s._expire(s.dict, self.session.identity_map._modified)
+        if not self.nested:
+            if self.session.expire_on_commit:
+                for s in self.session.identity_map.all_states():
+                    s._expire(s.dict, self.session.identity_map._modified)
 
             statelib.InstanceState._detach_states(
                 list(self._deleted), self.session
             )
             self._deleted.clear()
-        elif self.nested:
+        else:
             parent = self._parent
             assert parent is not None
             parent._new.update(self._new)
